@@ -1510,6 +1510,67 @@ theorem c14_concrete_tables :
     (∀ res ∈ ["C14Post", "C14Put", "C14Int", "C14Bytes", "C14Empty", "C14Both", "C14Echo", "C14Swap", "Nope"],
       concreteTable.routes res = (Drv.resourceId res).map restTag) := by decide
 
+/-! ### what a registration accepts -/
+
+/-- **a registration is accepted exactly when the reflection code can call the function**: one
+argument that is a pointer to a struct (`reflect.New(to.Elem())`, `arg.Elem().Set`), two results of
+which the first is an interface or a pointer to a struct and the second an `error`
+(`ret[1].Interface()`, `ret[0].Interface()` in `callInterfaceFunc`) -/
+theorem c14_registration_accepts_callable (g : Sig) :
+    registerHandlerCheck g = none ↔
+      (g.isFunc = true ∧ g.nIn = 1 ∧ (∃ f, g.in0 = .ptrStruct f) ∧ g.nOut = 2 ∧
+        (g.out0 = .iface ∨ g.out0 = .ptrStruct) ∧ g.out1Err = true) := by
+  obtain ⟨isFunc, nIn, in0, nOut, out0, out1Err⟩ := g
+  simp only [registerHandlerCheck, handlerInputCheck, createServiceHandler]
+  cases isFunc <;> cases in0 <;> cases out0 <;> cases out1Err <;>
+    by_cases h1 : nIn = 1 <;> by_cases h2 : nOut = 2 <;> simp [h1, h2]
+
+/-- **the kind of GET handler fits the field the closure sets**: a REST registration is accepted as
+an int (byte-slice) GET handler only for a function the websocket registration would accept too,
+whose argument struct has exactly one field, of kind `int` (`[]byte`): `Field(0).SetInt` /
+`.SetBytes` in the closure (processor.go:252, 264) cannot panic; and the versions are in order -/
+theorem c14_rest_get_kind_fits_field (g : Sig) (method : String) (mn mx : Nat) (k : Option GetKind)
+    (h : registerRESTCheck g method mn mx = .ok k) :
+    3 ≤ mn ∧ mn ≤ mx ∧ registerHandlerCheck g = none ∧ (method = "GET" ∨ method = "POST" ∨ method = "PUT") ∧
+    (k = none ↔ method ≠ "GET") ∧
+    (k = some .int → g.in0 = .ptrStruct .oneInt) ∧ (k = some .slice → g.in0 = .ptrStruct .oneBytes) ∧
+    (k = some .empty → g.in0 = .ptrStruct .none) := by
+  simp only [registerRESTCheck] at h
+  split at h
+  · cases h
+  · rename_i hm
+    split at h
+    · cases h
+    · rename_i h1
+      split at h
+      · cases h
+      · rename_i h2
+        split at h
+        · cases h
+        · rename_i hr
+          have hmeth : method = "GET" ∨ method = "POST" ∨ method = "PUT" := by
+            by_cases a : method = "GET"
+            · exact Or.inl a
+            · by_cases b : method = "POST"
+              · exact Or.inr (Or.inl b)
+              · by_cases c : method = "PUT"
+                · exact Or.inr (Or.inr c)
+                · exact absurd ⟨a, b, c⟩ hm
+          refine ⟨by omega, by omega, hr, hmeth, ?_⟩
+          split at h
+          · rename_i hg
+            split at h
+            · rename_i k' hk
+              simp only [Except.ok.injEq] at h
+              subst h
+              simp only [prepareHandlerGET] at hk
+              split at hk <;> first | (simp only [Except.ok.injEq] at hk; subst hk; simp_all) | (cases hk)
+            · cases h
+          · rename_i hg
+            simp only [Except.ok.injEq] at h
+            subst h
+            simp [hg]
+
 /-! ### the code regions the model stands for
 Regenerated from /repo's source on every run (`harness/cmd/astfacts` → `OnetVerif/Shapes.lean`): the
 calls that matter for synchronisation and data flow, the lock regions and (for decision logic) the
